@@ -4,6 +4,7 @@ import PrysmVerif.Lemmas.C09Fam
 import PrysmVerif.Lemmas.C09Asm
 import PrysmVerif.Lemmas.C09Tail
 import PrysmVerif.Lemmas.C09Surf
+import PrysmVerif.Lemmas.C09Jac
 /-!
 # C09 — derivative routines return the derivatives of the routines they name
 
@@ -435,13 +436,109 @@ theorem zernike_azimuthal (d : Der R) (rad c s k : R) (hrad : d.D rad = 0) (hc :
   zernike_azimuthal_rule d rad c s k hrad hc hs
 end Derivation
 
-/-! ## Jacobi derivative: full statement (not proved) and what is proved -/
+/-! ## Jacobi derivative, every order -/
+section Jacobi
+open Polynomial JacD
+variable {F : Type} [Field F] [DecidableEq F] [CharZero F]
 
-/-- FULL STATEMENT, NOT PROVED (needs the contiguous relations of Jacobi polynomials for all orders):
-`jacobi_der(n, α, β, x₀)` is the derivative at `x₀` of the polynomial `P_n^{(α,β)}` for every order and all parameters -/
-def jacobi_der_full : Prop :=
-  ∀ (F : Type) [Field F] [DecidableEq F] [CharZero F] (al be x₀ : F) (n : ℕ), (∀ k : ℕ, al + be + (k : F) + 1 ≠ 0) →
-    jacobiDer n al be x₀ = Polynomial.eval x₀ (Polynomial.derivative ((liftP (jacFam al be)).p Polynomial.X n))
+/-- **`jacobi_der`, every order, all admissible parameters** (`α + β ∉ {-2, -3, …}`, in particular all `α, β > -1`):
+`½(n+α+β+1)·P_{n-1}^{(α+1,β+1)}(x₀)` (and `0` at `n = 0`) is the derivative at `x₀` of the polynomial `P_n^{(α,β)}` generated by
+`recurrence_abc`.  Proof: contiguous relation `P_n^{(α,β)} = u_n M_n + v_n M_{n-1} + w_n M_{n-2}` by induction from the two
+recurrences, then induction through the differentiated recurrence. -/
+theorem jacobi_der (al be x₀ : F) (H : ∀ j : ℕ, al + be + (j : F) + 2 ≠ 0) (n : ℕ) :
+    jacobiDer n al be x₀ = eval x₀ (derivative (jacPoly al be n)) := by
+  have h := dval_eq al be x₀ H n
+  simp only [dval] at h
+  rw [h]
+  cases n with
+  | zero => simp [jacobiDer, mm]
+  | succ k =>
+    simp only [jacobiDer, mm, ofInt_eq, ofFrac_eq]
+    push_cast
+    ring
+
+/-- the polynomial differentiated above evaluates to the value routine `jacobi` -/
+theorem jacPoly_eval (al be x₀ : F) (n : ℕ) : eval x₀ (jacPoly al be n) = jacobi n al be x₀ := eval_jacPoly al be x₀ n
+
+/-- `legendre_der` (`α = β = 0`), every order -/
+theorem legendre_der (x₀ : F) (n : ℕ) : jacobiDer n 0 0 x₀ = eval x₀ (derivative (jacPoly (0 : F) 0 n)) := by
+  apply jacobi_der
+  intro j
+  have : (0 : F) + 0 + (j : F) + 2 = ((j + 2 : ℕ) : F) := by push_cast; ring
+  rw [this]; exact Nat.cast_ne_zero.mpr (by omega)
+
+/-- the Jacobi factor of every Zernike radial polynomial (`α = 0`, `β = |m|`) and of Qcon (`β = 4`), every order -/
+theorem jacobi_der_zernike (m : ℕ) (x₀ : F) (n : ℕ) :
+    jacobiDer n 0 (m : F) x₀ = eval x₀ (derivative (jacPoly (0 : F) (m : F) n)) := by
+  apply jacobi_der
+  intro j
+  have : (0 : F) + (m : F) + (j : F) + 2 = ((m + j + 2 : ℕ) : F) := by push_cast; ring
+  rw [this]; exact Nat.cast_ne_zero.mpr (by omega)
+
+/-- the Chebyshev cases `α, β ∈ {±½}` (where `recurrence_abc` takes its special branch at `n = 0`), every order -/
+theorem jacobi_der_chebyshev (al be x₀ : F) (ha : al = 1 / 2 ∨ al = -1 / 2) (hb : be = 1 / 2 ∨ be = -1 / 2) (n : ℕ) :
+    jacobiDer n al be x₀ = eval x₀ (derivative (jacPoly al be n)) := by
+  apply jacobi_der
+  intro j
+  have c : ∀ k : ℕ, ((k : F) + 1) ≠ 0 := fun k => natne k
+  rcases ha with rfl | rfl <;> rcases hb with rfl | rfl
+  · have : (1 / 2 : F) + 1 / 2 + (j : F) + 2 = ((j + 2 : ℕ) : F) + 1 := by push_cast; ring
+    rw [this]; exact c _
+  · have : (1 / 2 : F) + -1 / 2 + (j : F) + 2 = ((j + 1 : ℕ) : F) + 1 := by push_cast; ring
+    rw [this]; exact c _
+  · have : (-1 / 2 : F) + 1 / 2 + (j : F) + 2 = ((j + 1 : ℕ) : F) + 1 := by push_cast; ring
+    rw [this]; exact c _
+  · have : (-1 / 2 : F) + -1 / 2 + (j : F) + 2 = ((j : ℕ) : F) + 1 := by push_cast; ring
+    rw [this]; exact c _
+
+/-- radial polynomial of a Zernike term: `r^{|m|} · P_{n_j}^{(0,|m|)}(2r² - 1)` as a polynomial in `r` -/
+noncomputable def zernikeRadPoly (am nj : ℕ) : F[X] := X ^ am * (jacPoly (0 : F) (am : F) nj).comp (C 2 * X ^ 2 - 1)
+
+theorem zernikeRadPoly_eval (am nj : ℕ) (r : F) :
+    eval r (zernikeRadPoly (F := F) am nj) = r ^ am * jacobi nj 0 (am : F) (2 * r ^ 2 - 1) := by
+  simp [zernikeRadPoly, eval_comp, jacPoly_eval]
+
+/-- **`zernike_nm_der`, radial derivative, every `(n, m)`, both normalisations, every point**: the first component is
+`znorm · (d/dr)[r^{|m|} P_{(n-|m|)/2}^{(0,|m|)}(2r² - 1)] ·` (`cos(mt)` for `m > 0`, `sin(|m|t)` for `m < 0`, `1` for `m = 0`) -/
+theorem zernike_der_radial_correct (n : ℕ) (m : ℤ) (r c s zn : F) :
+    (zernikeDer n m r c s zn).1 =
+      zn * eval r (derivative (zernikeRadPoly (F := F) m.natAbs ((n - m.natAbs) / 2)))
+        * (if m = 0 then 1 else if m < 0 then s else c) := by
+  have hjd := jacobi_der_zernike (F := F) m.natAbs (2 * r ^ 2 - 1) ((n - m.natAbs) / 2)
+  have hdc : eval r (derivative ((jacPoly (0 : F) (m.natAbs : F) ((n - m.natAbs) / 2)).comp (C 2 * X ^ 2 - 1)))
+      = 4 * r * jacobiDer ((n - m.natAbs) / 2) 0 (m.natAbs : F) (2 * r ^ 2 - 1) := by
+    have e1 : eval r (derivative (C 2 * X ^ 2 - 1 : F[X])) = 4 * r := by
+      simp only [derivative_sub, derivative_mul, derivative_C, derivative_X_pow, derivative_one, eval_sub, eval_mul, eval_add,
+        eval_C, eval_pow, eval_X, eval_zero, eval_natCast, map_natCast]
+      norm_num
+      ring
+    have e2 : eval r (C 2 * X ^ 2 - 1 : F[X]) = 2 * r ^ 2 - 1 := by simp
+    rw [derivative_comp, eval_mul, eval_comp, e1, e2, ← hjd]
+  have hv : eval r ((jacPoly (0 : F) (m.natAbs : F) ((n - m.natAbs) / 2)).comp (C 2 * X ^ 2 - 1))
+      = jacobi ((n - m.natAbs) / 2) 0 (m.natAbs : F) (2 * r ^ 2 - 1) := by
+    simp [eval_comp, jacPoly_eval]
+  by_cases h0 : m = 0
+  · subst h0
+    simp only [zernikeDer, zernikeRadPoly, Int.natAbs_zero, pow_zero, one_mul, beq_self_eq_true, if_true, ofInt_eq, npow_eq]
+    have := hdc
+    simp only [Int.natAbs_zero] at this
+    simp only [Nat.cast_zero, Int.cast_zero, Int.cast_natCast, Int.cast_ofNat, Int.cast_one] at this ⊢
+    rw [this]
+    ring
+  · have hb : (m == 0) = false := by simpa using h0
+    have hpos : 0 < m.natAbs := Int.natAbs_pos.mpr h0
+    obtain ⟨k, hk⟩ : ∃ k, m.natAbs = k + 1 := ⟨m.natAbs - 1, by omega⟩
+    have hder : eval r (derivative (zernikeRadPoly (F := F) m.natAbs ((n - m.natAbs) / 2)))
+        = jacobi ((n - m.natAbs) / 2) 0 (m.natAbs : F) (2 * r ^ 2 - 1) * ((m.natAbs : F) * r ^ (m.natAbs - 1))
+          + r ^ m.natAbs * (4 * r * jacobiDer ((n - m.natAbs) / 2) 0 (m.natAbs : F) (2 * r ^ 2 - 1)) := by
+      simp only [zernikeRadPoly, derivative_mul, eval_add, eval_mul, hdc, hv, derivative_X_pow, eval_pow, eval_X, eval_C,
+        eval_natCast, map_natCast]
+      ring
+    simp only [zernikeDer, hb, Bool.false_eq_true, if_false, ofInt_eq, npow_eq, h0]
+    rw [hder]
+    simp only [Int.cast_natCast, Int.cast_ofNat, Int.cast_one]
+    split <;> ring
+end Jacobi
 
 /-! ## non-vacuity -/
 open Polynomial in
